@@ -143,7 +143,11 @@ def drive(MC, loop, P, K, cut_exc, sched, now_units, configure=None):
         mgr.close()
     sched(do_close)
     drive.last_close = do_close
+    drive.alive.append((trace, transports, task, mgr, factory))      # keep every manager's objects referenced for the whole run (no GC of pending tasks)
     return trace, transports, task, mgr
+
+
+drive.alive = []
 
 
 def analyse_c18(trace, max_delay, threshold, sleep_sec, scale, holds, mn, mx):
